@@ -46,7 +46,7 @@ class C04(OutstationProp):
         epoch = 0
         rxs = []
         for op, t, lines in steps:
-            if op[0] == "disconnect":
+            if op[0] in ("disconnect", "bounce"):
                 epoch += 1
             if op[0] == "rx":
                 rxs.append((t, int(op[1]), op[2], bytes.fromhex(op[3]) if op[3] != "-" else b"", lines, epoch))
